@@ -41,15 +41,15 @@ THEOREMS = [
     'C11.cijkl_setter_complete', 'C11.transform_preserves_symmetry', 'C11.transform_is_rot',
     'C11.system_invariant_isotropic', 'C11.system_invariant_cubic', 'C11.system_invariant_hexagonal',
     'C11.system_invariant_tetragonal', 'C11.system_invariant_rhombohedral', 'C11.three_fold_proper',
-    'C11.system_invariant_orthorhombic', 'C11.system_invariant_monoclinic', 'C11.generators_proper',
-    'C11.invariance_group', 'C11.hexagonal_inputs_agree', 'C11.rhombohedral_inputs_agree', 'C11.iso_range',
-    'C11.iso_pair_C11_C12', 'C11.iso_pair_C11_C44', 'C11.iso_pair_C11_K', 'C11.iso_pair_C12_C44',
-    'C11.iso_pair_C12_K', 'C11.iso_pair_C44_K', 'C11.iso_pair_C11_nu', 'C11.iso_pair_C44_nu',
-    'C11.iso_pair_E_nu', 'C11.iso_pair_nu_K', 'C11.iso_pair_C44_E', 'C11.iso_pair_E_K', 'C11.iso_pair_C12_nu',
-    'C11.iso_pair_C11_E', 'C11.iso_pair_C12_E', 'C11.iso_alias', 'C11.normalized_idem_triclinic',
-    'C11.normalized_idem_cubic', 'C11.normalized_idem_hexagonal', 'C11.normalized_idem_tetragonal',
-    'C11.normalized_idem_rhombohedral', 'C11.normalized_idem_orthorhombic', 'C11.normalized_idem_isotropic',
-    'C11.is_normal_of_normalized',
+    'C11.system_invariant_orthorhombic', 'C11.system_invariant_monoclinic', 'C11.templates_symmetric',
+    'C11.named_constants_placed', 'C11.generators_proper', 'C11.invariance_group',
+    'C11.hexagonal_inputs_agree', 'C11.rhombohedral_inputs_agree', 'C11.iso_range', 'C11.iso_pair_C11_C12',
+    'C11.iso_pair_C11_C44', 'C11.iso_pair_C11_K', 'C11.iso_pair_C12_C44', 'C11.iso_pair_C12_K',
+    'C11.iso_pair_C44_K', 'C11.iso_pair_C11_nu', 'C11.iso_pair_C44_nu', 'C11.iso_pair_E_nu',
+    'C11.iso_pair_nu_K', 'C11.iso_pair_C44_E', 'C11.iso_pair_E_K', 'C11.iso_pair_C12_nu', 'C11.iso_pair_C11_E',
+    'C11.iso_pair_C12_E', 'C11.iso_alias', 'C11.normalized_idem_triclinic', 'C11.normalized_idem_cubic',
+    'C11.normalized_idem_hexagonal', 'C11.normalized_idem_tetragonal', 'C11.normalized_idem_rhombohedral',
+    'C11.normalized_idem_orthorhombic', 'C11.normalized_idem_isotropic', 'C11.is_normal_of_normalized',
 ]
 PARTIAL = {
     'transform_with_cleanups': 'transform_id/comp/inv, energy and moduli invariance and system_invariant_* are proved for '
@@ -1791,7 +1791,21 @@ def search(ctx, broken):
             C = _spd_dyadic(rng, 3, rng.choice([1.0, 16.0]))
         else:
             C = _spd_float(rng, rng.choice([1.0, 160.2176621, 1e-3]))
-        _check_tensor_clauses(ctx, EC(Cij=C), {'Cij': C.tolist()}, 'random SPD')
+        if it % 4 == 1:     # a few small but significant couplings (1e-7 .. 1e-3 of the largest entry)
+            for _ in range(3):
+                a_, b_ = rng.sample(range(6), 2)
+                C[a_, b_] = C[b_, a_] = rng.choice([1e-7, 1e-6, 1e-5, 1e-3, -1e-6, -1e-4]) * C.max() * rng.uniform(1, 2)
+        C0 = C.copy()
+        ec = EC(Cij=C.copy())
+        # Cij -> object -> Cij: only entries below 1e-9 of the maximum may be altered (zeroed)
+        keep = np.abs(C0 / C0.max()) > 1e-9 * (1 + 1e-6)
+        if not np.array_equal(ec.Cij[keep], C0[keep]) or np.any(ec.Cij[~keep] != 0.0):
+            ctx.violate('roundtrip:Cij', 'ElasticConstants(Cij=C).Cij differs from C beyond the 1e-9 clean-up',
+                        {'op': 'representations', 'Cij': C0.tolist()})
+        _check_tensor_clauses(ctx, ec, {'Cij': C0.tolist()}, 'random SPD')
+        if it % 4 == 1:
+            _check_rotation_clauses(ctx, ec, _rand_rotation(rng), _rand_rotation(rng), _rand_strain(rng),
+                                    {'Cij': C0.tolist()}, 'SPD with small couplings')
     # ---- rotations ---------------------------------------------------------------------------
     for it in range(ctx.n(40, 400) * big):
         C = _spd_float(rng, rng.choice([1.0, 160.2176621])) if it % 2 else _spd_dyadic(rng, 3)
@@ -1812,6 +1826,11 @@ def search(ctx, broken):
             _check_tensor_clauses(ctx, ec, info, sysname)
             c = ec.Cij
             mx = float(np.abs(c).max())
+            # a named constant Cab is the Voigt component [a-1, b-1] (and [b-1, a-1])
+            wrong = [k for k, v in vals.items() if c[int(k[1]) - 1, int(k[2]) - 1] != v or c[int(k[2]) - 1, int(k[1]) - 1] != v]
+            if wrong:
+                ctx.violate(f'named:{sysname}', f'{sysname}: constants {wrong} are not stored at their Voigt positions',
+                            {'op': 'named', **info})
             for rn in SYS_ROTS[sysname]:
                 if rn == 'rz':
                     th = rng.uniform(0, 2 * math.pi)
@@ -1932,6 +1951,12 @@ def replay(ctx, payload):
             print('replay', r['system'], r.get('rotation'), 'max diff', np.abs(out - ec.Cij).max())
             if not np.allclose(out, ec.Cij, rtol=1e-9, atol=_rot_tol(float(np.abs(ec.Cij).max()))):
                 ctx.violate(f"invariance:{r['system']}", 'replayed case still fails', r)
+        elif op == 'named':
+            ec = am.ElasticConstants(**r['kwargs'])
+            bad = [k for k, v in r['kwargs'].items() if ec.Cij[int(k[1]) - 1, int(k[2]) - 1] != v]
+            print('replay named', bad)
+            if bad:
+                ctx.violate('named:replay', 'replayed case still fails', r)
         elif op == 'alt':
             a = am.ElasticConstants(**r['kwargs']).Cij
             b, e = _call(lambda: am.ElasticConstants(**r['alt']).Cij)
